@@ -19,9 +19,17 @@ def specInit (b : Bool) : Call → Bool
   | .closeLib => false
   | _ => b
 
-/-- code of the most recent failing call of a history (`init` before it) -/
-def lastFailure (init : Option Int) (rs : List Result) : Option Int :=
-  rs.foldl (fun acc r => if r.code ≠ 0 then some r.code else acc) init
+/-- code of the most recent failing call of a history (`init` before it); the error query itself
+(`GCGetLastError`, `Call.noSave`) is not a call whose failure is recorded -/
+def lastFailure (init : Option Int) (crs : List (Call × Result)) : Option Int :=
+  crs.foldl (fun acc cr => if cr.2.code ≠ 0 ∧ cr.1.noSave = false then some cr.2.code else acc) init
+
+/-- a concrete environment for the non-vacuity examples -/
+def exEnv : Env :=
+  { path := asc "/r/mod.rs", sysXml := [], ifXml := [], errText := fun _ => asc "e", noErrorText := asc "No Error",
+    notAsciiText := [], sys := ⟨asc "S", asc "V", asc "M", [], [], [], [], 1, 0, 0⟩,
+    ifc := ⟨asc "I", asc "V", asc "N", [], [], [], [], 1, 0, 0⟩, gentlMajor := 1, gentlMinor := 6,
+    schemaMajor := 1, schemaMinor := 1, schemaSub := 0 }
 
 /-- What the buffer protocol prescribes for a value whose stored image is `img`
 (strings: text + NUL) and `INFO_DATATYPE` `ty`, as (code, type written, destination afterwards). -/
@@ -32,20 +40,25 @@ def protocol (img : Bytes) (ty : Nat) (d : Dst) : Int × Option Nat × Dst :=
     if d.size < img.length then (-1016, none, d)
     else (0, some ty, ⟨some (img ++ old.drop img.length), img.length⟩)
 
-private theorem finish_done {r : Ret} {s' : State} {res : Result} (h : finish r = .done s' res) :
+private theorem finish_done {save : Bool} {r : Ret} {s' : State} {res : Result}
+    (h : finish save r = .done s' res) :
     (s'.libInit = r.st.libInit ∧ s'.sysOpen = r.st.sysOpen ∧ s'.ifOpen = r.st.ifOpen ∧
       s'.sysMem = r.st.sysMem ∧ s'.ifMem = r.st.ifMem ∧ s'.slots = r.st.slots) ∧
     (res.code = 0 → s'.lastErr = r.st.lastErr) ∧
-    (res.code ≠ 0 → ∃ e, s'.lastErr = some e ∧ e.code = res.code) := by
+    (save = false → s'.lastErr = r.st.lastErr) ∧
+    (res.code ≠ 0 → save = true → ∃ e, s'.lastErr = some e ∧ e.code = res.code) := by
   unfold finish at h
   split at h
   · cases h; simp
   · rename_i e _
-    cases h
     have := Err.code_neg e
-    refine ⟨⟨rfl, rfl, rfl, rfl, rfl, rfl⟩, ?_, ?_⟩
-    · intro h0; simp only at h0; omega
-    · intro _; exact ⟨e, rfl, rfl⟩
+    cases save <;> cases h
+    · refine ⟨⟨rfl, rfl, rfl, rfl, rfl, rfl⟩, fun _ => rfl, fun _ => rfl, ?_⟩
+      intro _ h1; cases h1
+    · refine ⟨⟨rfl, rfl, rfl, rfl, rfl, rfl⟩, ?_, ?_, ?_⟩
+      · intro h0; simp only at h0; omega
+      · intro h1; cases h1
+      · intro _ _; exact ⟨e, rfl, rfl⟩
   · cases h
 
 private theorem noAssert_false {c : Call} (hc : c ≠ .initLib) : c.noAssert = false := by
@@ -54,16 +67,18 @@ private theorem noAssert_false {c : Call} (hc : c ≠ .initLib) : c.noAssert = f
 /-! ## 1. Outside GCInitLib … GCCloseLib every call is refused with NOT_INITIALIZED -/
 
 /-- While the library is not initialised every entry point other than `GCInitLib` returns
-GC_ERR_NOT_INITIALIZED (-1002), writes no out-parameter, changes nothing but the last error. -/
+GC_ERR_NOT_INITIALIZED (-1002), writes no out-parameter, changes nothing but the last error
+(which the error query itself, `GCGetLastError`, does not touch either). -/
 theorem not_initialized_outside (env : Env) (s : State) (c : Call)
     (h : s.libInit = false) (hc : c ≠ .initLib) :
-    step env s c = .done { s with lastErr := some .notInitialized } ⟨-1002, c.untouched⟩ := by
-  simp [step, noAssert_false hc, h, finish, Err.code]
+    step env s c = .done (if c.noSave then s else { s with lastErr := some .notInitialized })
+      ⟨-1002, c.untouched⟩ := by
+  cases hs : c.noSave <;> simp [step, noAssert_false hc, h, finish, Err.code, hs]
 
 /-- `GCInitLib` on a library that is not initialised succeeds. -/
 theorem init_ok (env : Env) (s : State) (h : s.libInit = false) :
     step env s .initLib = .done { s with libInit := true } ⟨0, .plain⟩ := by
-  simp [step, Call.noAssert, usesFreed, Call.handle?, body, h, finish]
+  simp [step, Call.noAssert, Call.noSave, usesFreed, Call.handle?, body, h, finish]
 
 /-- One call moves the library flag exactly as the specification says. -/
 theorem step_libInit {env : Env} {s s' : State} {c : Call} {r : Result}
@@ -107,10 +122,11 @@ the initial state), the next call — whatever it is, except `GCInitLib` — ret
 theorem not_initialized_outside_history (env : Env) (cs : List Call) (s : State) (rs : List Result)
     (s' : State) (c : Call) (hrun : run env s cs = (rs, some s'))
     (hout : cs.foldl specInit s.libInit = false) (hc : c ≠ .initLib) :
-    step env s' c = .done { s' with lastErr := some .notInitialized } ⟨-1002, c.untouched⟩ :=
+    step env s' c = .done (if c.noSave then s' else { s' with lastErr := some .notInitialized })
+      ⟨-1002, c.untouched⟩ :=
   not_initialized_outside env s' c ((lib_init_tracks_history env cs s rs s' hrun).trans hout) hc
 
-example : (State.init ⟨[], [], []⟩).libInit = false ∧
+example : (State.init exEnv).libInit = false ∧
     [Call.initLib, .tlOpen 0, .closeLib].foldl specInit false = false := by decide
 
 /-! ## 2. Opening an open module fails with RESOURCE_IN_USE -/
@@ -118,13 +134,13 @@ example : (State.init ⟨[], [], []⟩).libInit = false ∧
 theorem reopen_in_use_system (env : Env) (s : State) (k : Nat)
     (hi : s.libInit = true) (ho : s.sysOpen = true) :
     step env s (.tlOpen k) = .done { s with lastErr := some .resourceInUse } ⟨-1004, .plain⟩ := by
-  simp [step, Call.noAssert, usesFreed, Call.handle?, body, hi, ho, finish, Err.code, Call.untouched]
+  simp [step, Call.noAssert, Call.noSave, usesFreed, Call.handle?, body, hi, ho, finish, Err.code, Call.untouched]
 
 theorem reopen_in_use_interface (env : Env) (s : State) (h k : Nat)
     (hi : s.libInit = true) (hh : s.slots h = .sys) (ho : s.ifOpen = true) :
-    step env s (.tlOpenInterface h INTERFACE_ID k) =
+    step env s (.tlOpenInterface h env.ifc.id k) =
       .done { s with lastErr := some .resourceInUse } ⟨-1004, .plain⟩ := by
-  simp [step, Call.noAssert, usesFreed, Call.handle?, body, hi, hh, ho, finish, Err.code,
+  simp [step, Call.noAssert, Call.noSave, usesFreed, Call.handle?, body, hi, hh, ho, finish, Err.code,
     Call.untouched, wantSystem]
 
 /-- An open system module stays open under every call except `TLClose` (so, by the theorem above,
@@ -166,23 +182,23 @@ theorem close_system_ok (env : Env) (s : State) (h : Nat)
     (hi : s.libInit = true) (hh : s.slots h = .sys) (ho : s.sysOpen = true) :
     step env s (.tlClose h) =
       .done (({ s with sysOpen := false, ifOpen := false }).setSlot h .freed) ⟨0, .plain⟩ := by
-  simp [step, Call.noAssert, usesFreed, Call.handle?, body, hi, hh, ho, finish, wantSystem]
+  simp [step, Call.noAssert, Call.noSave, usesFreed, Call.handle?, body, hi, hh, ho, finish, wantSystem]
 
 theorem open_closed_system_ok (env : Env) (s : State) (k : Nat)
     (hi : s.libInit = true) (ho : s.sysOpen = false) :
     step env s (.tlOpen k) = .done (({ s with sysOpen := true }).setSlot k .sys) ⟨0, .plain⟩ := by
-  simp [step, Call.noAssert, usesFreed, Call.handle?, body, hi, ho, finish]
+  simp [step, Call.noAssert, Call.noSave, usesFreed, Call.handle?, body, hi, ho, finish]
 
 theorem close_interface_ok (env : Env) (s : State) (h : Nat)
     (hi : s.libInit = true) (hh : s.slots h = .iface) :
     step env s (.ifClose h) = .done (({ s with ifOpen := false }).setSlot h .freed) ⟨0, .plain⟩ := by
-  simp [step, Call.noAssert, usesFreed, Call.handle?, body, hi, hh, finish, wantInterface]
+  simp [step, Call.noAssert, Call.noSave, usesFreed, Call.handle?, body, hi, hh, finish, wantInterface]
 
 theorem open_closed_interface_ok (env : Env) (s : State) (h k : Nat)
     (hi : s.libInit = true) (hh : s.slots h = .sys) (ho : s.ifOpen = false) :
-    step env s (.tlOpenInterface h INTERFACE_ID k) =
+    step env s (.tlOpenInterface h env.ifc.id k) =
       .done (({ s with ifOpen := true }).setSlot k .iface) ⟨0, .plain⟩ := by
-  simp [step, Call.noAssert, usesFreed, Call.handle?, body, hi, hh, ho, finish, wantSystem]
+  simp [step, Call.noAssert, Call.noSave, usesFreed, Call.handle?, body, hi, hh, ho, finish, wantSystem]
 
 /-- A closed system module stays closed under every call except `TLOpen`. -/
 theorem system_stays_closed {env : Env} {s s' : State} {c : Call} {r : Result}
@@ -270,31 +286,37 @@ theorem tlClose_success_closes {env : Env} {s s' : State} {h : Nat}
         omega
       · simp [finish] at hstep
 
-example : ∃ s', step ⟨[], [], []⟩ ({ State.init ⟨[], [], []⟩ with libInit := true, sysOpen := true }.setSlot 0 .sys)
+example : ∃ s', step exEnv ({ State.init exEnv with libInit := true, sysOpen := true }.setSlot 0 .sys)
     (.tlClose 0) = .done s' ⟨0, .plain⟩ := ⟨_, close_system_ok _ _ 0 rfl (by simp [State.setSlot]) rfl⟩
 
 /-! ## 4. Every failing call is retrievable through GCGetLastError -/
 
-/-- A call that returns an error code stores exactly that error; a call that returns success
-leaves the last error alone. -/
+/-- A call that returns an error code stores exactly that error — except the error query itself,
+which never changes the stored error; a call that returns success leaves it alone too. -/
 theorem last_error_tracks_step {env : Env} {s s' : State} {c : Call} {r : Result}
     (h : step env s c = .done s' r) :
-    (r.code ≠ 0 → ∃ e, s'.lastErr = some e ∧ e.code = r.code) ∧
-    (r.code = 0 → s'.lastErr = s.lastErr) := by
+    (r.code ≠ 0 → c.noSave = false → ∃ e, s'.lastErr = some e ∧ e.code = r.code) ∧
+    (r.code = 0 ∨ c.noSave = true → s'.lastErr = s.lastErr) := by
   unfold step at h
   split at h
   · have := finish_done h
-    exact ⟨this.2.2, fun h0 => by rw [this.2.1 h0]⟩
+    refine ⟨fun h0 hs => this.2.2.2 h0 (by simp [hs]), ?_⟩
+    rintro (h0 | hs)
+    · rw [this.2.1 h0]
+    · rw [this.2.2.1 (by simp [hs])]
   · split at h
     · cases h; simp
     · have := finish_done h
-      exact ⟨this.2.2, fun h0 => by rw [this.2.1 h0, body_lastErr]⟩
+      refine ⟨fun h0 hs => this.2.2.2 h0 (by simp [hs]), ?_⟩
+      rintro (h0 | hs)
+      · rw [this.2.1 h0, body_lastErr]
+      · rw [this.2.2.1 (by simp [hs]), body_lastErr]
 
 /-- Induction over an arbitrary call sequence: the stored last error always carries the code of
-the most recent failing call of the history. -/
+the most recent failing call of the history (error queries aside). -/
 theorem last_error_tracks_history (env : Env) (cs : List Call) :
     ∀ (s : State) (rs : List Result) (s' : State), run env s cs = (rs, some s') →
-      s'.lastErr.map Err.code = lastFailure (s.lastErr.map Err.code) rs := by
+      s'.lastErr.map Err.code = lastFailure (s.lastErr.map Err.code) (cs.zip rs) := by
   induction cs with
   | nil => intro s rs s' h; simp [run] at h; obtain ⟨rfl, rfl⟩ := h; rfl
   | cons c cs ih =>
@@ -305,59 +327,89 @@ theorem last_error_tracks_history (env : Env) (cs : List Call) :
       simp only [Prod.mk.injEq] at h
       have := ih s1 _ s' (Prod.ext rfl h.2)
       rw [this, ← h.1]
-      simp only [lastFailure, List.foldl_cons]
+      simp only [lastFailure, List.zip_cons_cons, List.foldl_cons]
       congr 1
       have hl := last_error_tracks_step hstep
       by_cases h0 : r.code = 0
-      · simp [h0, hl.2 h0]
-      · obtain ⟨e, he, hc⟩ := hl.1 h0
-        simp [h0, he, hc]
+      · simp [h0, hl.2 (Or.inl h0)]
+      · cases hs : c.noSave
+        · obtain ⟨e, he, hc⟩ := hl.1 h0 hs
+          simp [h0, he, hc, hs]
+        · simp [hs, hl.2 (Or.inr hs)]
     · simp at h
+
+/-- The error query never changes anything: whatever its arguments and its outcome (success,
+BUFFER_TOO_SMALL, NOT_INITIALIZED), the state — in particular the stored error — is the same
+afterwards, so "query the size, then retry" and repeated queries see the same error. -/
+theorem error_query_changes_nothing {env : Env} {s s' : State} {d : Dst} {r : Result}
+    (h : step env s (.getLastError d) = .done s' r) : s' = s := by
+  unfold step at h
+  split at h
+  · simp only [Call.noSave, finish, Bool.not_true] at h
+    cases h; rfl
+  · split at h
+    · cases h; rfl
+    · simp only [body, Call.noSave, Bool.not_true] at h
+      repeat' split at h
+      all_goals (simp only [finish] at h; first | (cases h; rfl) | cases h | skip)
 
 /-- `GCGetLastError` with a NULL text buffer or a buffer that is large enough returns success and
 reports the stored error's code (and its text, NUL-terminated).  Hypothesis: the text is ASCII —
-true for every error except INVALID_ID carrying a non-ASCII id supplied by the caller. -/
+true unless the message texts are not, or INVALID_ID carries a non-ASCII id supplied by the caller. -/
 theorem last_error_query (env : Env) (s : State) (e : Err) (d : Dst)
-    (hi : s.libInit = true) (he : s.lastErr = some e) (ha : isAscii e.text = true)
-    (hd : ∀ old, d.buf = some old → e.text.length + 1 ≤ d.size) :
+    (hi : s.libInit = true) (he : s.lastErr = some e) (ha : isAscii (e.text env) = true)
+    (hd : ∀ old, d.buf = some old → (e.text env).length + 1 ≤ d.size) :
     step env s (.getLastError d) =
-      .done s ⟨0, .lastError (some e.code) ⟨d.buf.map fun old => e.text ++ [0] ++ old.drop (e.text.length + 1),
-        e.text.length + 1⟩⟩ := by
+      .done s ⟨0, .lastError (some e.code)
+        ⟨d.buf.map fun old => e.text env ++ [0] ++ old.drop ((e.text env).length + 1),
+        (e.text env).length + 1⟩⟩ := by
   cases hb : d.buf with
   | none =>
-    simp [step, Call.noAssert, usesFreed, Call.handle?, body, hi, he, finish, copyTo, Val.image, ha, hb]
+    simp [step, Call.noAssert, Call.noSave, usesFreed, Call.handle?, body, hi, he, finish, copyTo, Val.image, ha, hb]
   | some old =>
     have := hd old hb
-    have h2 : ¬ d.size < e.text.length + 1 := by omega
-    simp [step, Call.noAssert, usesFreed, Call.handle?, body, hi, he, finish, copyTo, Val.image, ha, hb, h2]
+    have h2 : ¬ d.size < (e.text env).length + 1 := by omega
+    simp [step, Call.noAssert, Call.noSave, usesFreed, Call.handle?, body, hi, he, finish, copyTo, Val.image, ha, hb, h2]
 
 /-- `GCGetLastError` with a text buffer that is too small: BUFFER_TOO_SMALL, neither the buffer nor
-the size nor `*piErrorCode` is written (and this failure becomes the last error). -/
+the size nor `*piErrorCode` is written, and the stored error is still the one that was asked for. -/
 theorem last_error_query_too_small (env : Env) (s : State) (e : Err) (old : Bytes) (n : Nat)
-    (hi : s.libInit = true) (he : s.lastErr = some e) (ha : isAscii e.text = true)
-    (hn : n < e.text.length + 1) :
-    step env s (.getLastError ⟨some old, n⟩) =
-      .done { s with lastErr := some .bufferTooSmall } ⟨-1016, .lastError none ⟨some old, n⟩⟩ := by
-  simp [step, Call.noAssert, usesFreed, Call.handle?, body, hi, he, finish, copyTo, Val.image, ha, hn,
+    (hi : s.libInit = true) (he : s.lastErr = some e) (ha : isAscii (e.text env) = true)
+    (hn : n < (e.text env).length + 1) :
+    step env s (.getLastError ⟨some old, n⟩) = .done s ⟨-1016, .lastError none ⟨some old, n⟩⟩ := by
+  simp [step, Call.noAssert, Call.noSave, usesFreed, Call.handle?, body, hi, he, finish, copyTo, Val.image, ha, hn,
     Err.code, Call.untouched]
 
-/-- The fixed error texts are ASCII. -/
-theorem error_text_ascii (e : Err) (h1 : ∀ id, e ≠ .invalidId id) (h2 : ∀ m, e ≠ .invalidValue m) :
-    isAscii e.text = true := by
-  cases e <;> first | decide | simp_all
-
-/-- Failing call, then query: the query returns the failing call's code. -/
+/-- Failing call, then query: the query returns the failing call's code (the library must be
+initialised for the query to be answered at all). -/
 theorem last_error_tracks (env : Env) (s s' : State) (c : Call) (r : Result) (n : Nat)
-    (h : step env s c = .done s' r) (hf : r.code ≠ 0) (hi : s'.libInit = true)
-    (ha : ∀ e, s'.lastErr = some e → isAscii e.text = true) :
+    (h : step env s c = .done s' r) (hf : r.code ≠ 0) (hc : c.noSave = false) (hi : s'.libInit = true)
+    (ha : ∀ e, s'.lastErr = some e → isAscii (e.text env) = true) :
     ∃ size, step env s' (.getLastError ⟨none, n⟩) = .done s' ⟨0, .lastError (some r.code) ⟨none, size⟩⟩ := by
-  obtain ⟨e, he, hc⟩ := (last_error_tracks_step h).1 hf
-  refine ⟨e.text.length + 1, ?_⟩
+  obtain ⟨e, he, hc⟩ := (last_error_tracks_step h).1 hf hc
+  refine ⟨(e.text env).length + 1, ?_⟩
   rw [← hc]
   have := last_error_query env s' e ⟨none, n⟩ hi he (ha e he) (by simp)
   simpa using this
 
-example : isAscii (Err.text (.invalidId INTERFACE_ID)) = true := by decide
+/-- … and still does after any number of failed attempts to query it with a too-small buffer. -/
+theorem last_error_survives_short_queries (env : Env) (s : State) (e : Err) (olds : List (Bytes × Nat)) (n : Nat)
+    (hi : s.libInit = true) (he : s.lastErr = some e) (ha : isAscii (e.text env) = true)
+    (hn : ∀ on ∈ olds, on.2 < (e.text env).length + 1) :
+    ∃ rs, run env s (olds.map fun on => .getLastError ⟨some on.1, on.2⟩) = (rs, some s) ∧
+      step env s (.getLastError ⟨none, n⟩) =
+        .done s ⟨0, .lastError (some e.code) ⟨none, (e.text env).length + 1⟩⟩ := by
+  refine ⟨olds.map fun on => ⟨-1016, .lastError none ⟨some on.1, on.2⟩⟩, ?_, ?_⟩
+  · induction olds with
+    | nil => rfl
+    | cons on olds ih =>
+      have h1 := last_error_query_too_small env s e on.1 on.2 hi he ha (hn on List.mem_cons_self)
+      have h2 := ih (fun x hx => hn x (List.mem_cons_of_mem _ hx))
+      simp [run, h1, h2]
+  · have := last_error_query env s e ⟨none, n⟩ hi he ha (by simp)
+    simpa using this
+
+example : isAscii (Err.text exEnv (.invalidId (asc "x"))) = true := by decide
 
 /-! ## 5. Buffer protocol -/
 
@@ -425,11 +477,11 @@ theorem buffer_protocol (env : Env) (s : State) (q : Query) (hi : s.libInit = tr
   | err e =>
     left
     refine ⟨e, rfl, fun d => ?_⟩
-    simp [step, Call.noAssert, hi, hfree d, body, hq, finish, Call.untouched]
+    simp [step, Call.noAssert, Call.noSave, hi, hfree d, body, hq, finish, Call.untouched]
   | panic =>
     right; right; right
     refine ⟨rfl, fun d => ?_⟩
-    simp [step, Call.noAssert, hi, hfree d, body, hq, finish]
+    simp [step, Call.noAssert, Call.noSave, hi, hfree d, body, hq, finish]
   | ok v =>
     right
     cases himg : v.image with
@@ -437,7 +489,7 @@ theorem buffer_protocol (env : Env) (s : State) (q : Query) (hi : s.libInit = tr
       left
       refine ⟨v, rfl, e, himg, fun d => ?_⟩
       cases q.typed <;>
-        simp [step, Call.noAssert, hi, hfree d, body, hq, finish, Call.untouched, infoOut, copyOut, copyTo, himg]
+        simp [step, Call.noAssert, Call.noSave, hi, hfree d, body, hq, finish, Call.untouched, infoOut, copyOut, copyTo, himg]
     | panic =>
       exfalso
       cases v <;> simp [Val.image] at himg
@@ -448,15 +500,15 @@ theorem buffer_protocol (env : Env) (s : State) (q : Query) (hi : s.libInit = tr
       cases hb : d.buf with
       | none =>
         cases ht : q.typed <;>
-          simp [step, Call.noAssert, hi, hfree d, body, hq, finish, Call.untouched, infoOut, copyOut,
+          simp [step, Call.noAssert, Call.noSave, hi, hfree d, body, hq, finish, Call.untouched, infoOut, copyOut,
             copyTo, himg, hb, protocol, ht]
       | some old =>
         by_cases hs : d.size < img.length
         · cases ht : q.typed <;>
-            simp [step, Call.noAssert, hi, hfree d, body, hq, finish, Call.untouched, infoOut, copyOut,
+            simp [step, Call.noAssert, Call.noSave, hi, hfree d, body, hq, finish, Call.untouched, infoOut, copyOut,
               copyTo, himg, hb, protocol, ht, hs, Err.code]
         · cases ht : q.typed <;>
-            simp [step, Call.noAssert, hi, hfree d, body, hq, finish, Call.untouched, infoOut, copyOut,
+            simp [step, Call.noAssert, Call.noSave, hi, hfree d, body, hq, finish, Call.untouched, infoOut, copyOut,
               copyTo, himg, hb, protocol, ht, hs]
 
 /-- What `protocol` means, in plain terms. -/
@@ -473,10 +525,10 @@ theorem protocol_spec (img : Bytes) (ty : Nat) :
     simp [protocol, this]
   · simp [List.length_append, List.length_drop]; omega
 
-/-- non-vacuity: TLGetInfo(TL_INFO_VENDOR) on an open system has a value of 26 bytes -/
-example : ∃ v img, queryValue ⟨[], [], []⟩ ({ State.init ⟨[], [], []⟩ with libInit := true }.setSlot 0 .sys)
-    (.tlGetInfo 0 1) = .ok v ∧ v.image = .ok img ∧ img.length = 26 :=
-  ⟨.str VENDOR_NAME, VENDOR_NAME ++ [0], by decide, by decide, by decide⟩
+/-- non-vacuity: TLGetInfo(TL_INFO_VENDOR) on an open system has a value (vendor + NUL) -/
+example : ∃ v img, queryValue exEnv ({ State.init exEnv with libInit := true }.setSlot 0 .sys)
+    (.tlGetInfo 0 1) = .ok v ∧ v.image = .ok img ∧ img.length = 2 :=
+  ⟨.str (asc "V"), asc "V" ++ [0], by decide, by decide, by decide⟩
 
 /-! ## 6. Ports: exactly the map's bytes or an error code, never a crash -/
 
@@ -540,17 +592,17 @@ theorem gcReadPort_exact_or_error (env : Env) (s : State) (h address size : Nat)
     have : e = .invalidHandle := by
       unfold portOf at hp; split at hp <;> simp_all
     subst this
-    exact ⟨.invalidHandle, by simp [step, Call.noAssert, hi, hf, body, hp, finish, Call.untouched, hsz'], by simp⟩
+    exact ⟨.invalidHandle, by simp [step, Call.noAssert, Call.noSave, hi, hf, body, hp, finish, Call.untouched, hsz'], by simp⟩
   | panic => unfold portOf at hp; split at hp <;> simp_all
   | ok m =>
     rcases port_read_exact_or_error env s m address size with ⟨h1, h2⟩ | h1 | h1 | ⟨h1, _⟩
     · left
       refine ⟨m, rfl, ?_, h2⟩
       have hl := port_read_length env s m address size _ h1
-      simp [step, Call.noAssert, hi, hf, body, hp, finish, h1, hl, hsz', hb]
-    · right; exact ⟨.invalidAddress, by simp [step, Call.noAssert, hi, hf, body, hp, finish, Call.untouched, h1, hsz'], by simp⟩
-    · right; exact ⟨.accessDenied, by simp [step, Call.noAssert, hi, hf, body, hp, finish, Call.untouched, h1, hsz'], by simp⟩
-    · right; exact ⟨.notInitialized, by simp [step, Call.noAssert, hi, hf, body, hp, finish, Call.untouched, h1, hsz'], by simp⟩
+      simp [step, Call.noAssert, Call.noSave, hi, hf, body, hp, finish, h1, hl, hsz', hb]
+    · right; exact ⟨.invalidAddress, by simp [step, Call.noAssert, Call.noSave, hi, hf, body, hp, finish, Call.untouched, h1, hsz'], by simp⟩
+    · right; exact ⟨.accessDenied, by simp [step, Call.noAssert, Call.noSave, hi, hf, body, hp, finish, Call.untouched, h1, hsz'], by simp⟩
+    · right; exact ⟨.notInitialized, by simp [step, Call.noAssert, Call.noSave, hi, hf, body, hp, finish, Call.untouched, h1, hsz'], by simp⟩
 
 /-- A size no buffer can have (`> isize::MAX`, e.g. `u64::MAX`) is refused with INVALID_PARAMETER
 before a slice is built from it — by `GCReadPort` and `GCWritePort`, whatever the handle. -/
@@ -561,15 +613,29 @@ theorem impossible_size_refused (env : Env) (s : State) (h address size : Nat) (
     (s.slots h ≠ .freed → step env s (.gcWritePort h address size buf) =
       .done { s with lastErr := some .invalidParameter } ⟨-1009, .write size⟩) := by
   constructor <;> intro hfree <;>
-    simp [step, Call.noAssert, usesFreed, Call.handle?, hfree, hi, body, finish, Call.untouched, hsz, Err.code]
+    simp [step, Call.noAssert, Call.noSave, usesFreed, Call.handle?, hfree, hi, body, finish, Call.untouched, hsz, Err.code]
 
 /-- A NULL required pointer parameter (out-pointer, `piSize`, `piType`, id string, port buffer,
 stacked entry array / entry buffer) is refused with INVALID_PARAMETER before anything is
 dereferenced or written, by every entry point, in every state, whatever the handle. -/
 theorem null_pointer_refused (env : Env) (s : State) (c : Call) (hi : s.libInit = true) :
     step env s (.nullPtr c) =
-      .done { s with lastErr := some .invalidParameter } ⟨-1009, c.untouched⟩ := by
-  simp [step, Call.noAssert, usesFreed, Call.handle?, hi, body, finish, Call.untouched, Err.code]
+      .done (if c.noSave then s else { s with lastErr := some .invalidParameter }) ⟨-1009, c.untouched⟩ := by
+  cases hs : c.noSave <;>
+    simp [step, Call.noAssert, Call.noSave, usesFreed, Call.handle?, hi, body, finish, Call.untouched, Err.code, hs]
+
+/-- The stacked variants refuse an entry whose size no buffer can have (`> isize::MAX`) with
+INVALID_PARAMETER before any entry is read or written, whatever the handle and the other entries. -/
+theorem impossible_size_refused_stacked (env : Env) (s : State) (h : Nat) (es : List (Nat × Nat × Bytes))
+    (hi : s.libInit = true) (hfree : s.slots h ≠ .freed)
+    (hsz : es.any (fun e => decide (e.2.1 > ISIZE_MAX)) = true) :
+    step env s (.gcReadPortStacked h es) =
+      .done { s with lastErr := some .invalidParameter } ⟨-1009, .readStacked es.length (es.map fun e => e.2.2)⟩ ∧
+    step env s (.gcWritePortStacked h es) =
+      .done { s with lastErr := some .invalidParameter } ⟨-1009, .writeStacked es.length⟩ := by
+  constructor <;>
+    simp [step, Call.noAssert, Call.noSave, usesFreed, Call.handle?, hfree, hi, body, finish, Call.untouched,
+      hsz, Err.code]
 
 /-- **Writes.**  For every module, address and data, in every well-formed state, `Port::write`
 never panics and either
@@ -606,24 +672,25 @@ theorem port_write_exact_or_error (env : Env) (s : State) (m : Module) (address 
       · intro m' hm; cases m' <;> simp_all [memOf]
       · rcases hr with rfl | rfl | rfl <;> simp
 
-/-- Well-formedness (memory sizes, InterfaceID register intact) holds initially … -/
-theorem wf_init (env : Env) (hp : env.path.length ≤ 1024) : WF env (State.init env) := by
+/-- Well-formedness (memory sizes, InterfaceID register intact) holds initially, provided the
+module path and the interface id fit their registers (otherwise `SystemModule::new` panics) … -/
+theorem wf_init (env : Env) (hp : env.path.length ≤ 1024) (hi : env.ifc.id.length ≤ 64) :
+    WF env (State.init env) := by
   have hz : ∀ n, (zeros n).length = n := by intro n; simp [zeros]
   have hpad : (padTo 1024 env.path).length = 1024 := by
     simp [padTo, List.length_append, hz]; omega
-  have hid : (padTo 64 INTERFACE_ID).length = 64 := ID_IMAGE_length
-  refine ⟨?_, ?_, ?_⟩
+  have hid : (padTo 64 env.ifc.id).length = 64 := ID_IMAGE_length env hi
+  refine ⟨?_, ?_, hi, ?_⟩
   · simp only [State.init, sysMemInit, List.length_append, hpad, hid, hz, SYS_XML_ADDRESS]
   · simp only [State.init, ifMemInit, List.length_append, hz]
-  · unfold IdOk
-    simp only [State.init, sysMemInit, List.append_assoc]
+  · simp only [State.init, sysMemInit, List.append_assoc]
     have e1 : (1036 : Nat) = (padTo 1024 env.path).length + 12 := by rw [hpad]
     rw [e1, List.drop_append]
     rw [List.drop_eq_nil_of_le (by omega), List.nil_append]
     simp only [Nat.add_sub_cancel_left]
-    have e2 : zeros 4 ++ (zeros 4 ++ (zeros 4 ++ (padTo 64 INTERFACE_ID ++
+    have e2 : zeros 4 ++ (zeros 4 ++ (zeros 4 ++ (padTo 64 env.ifc.id ++
         (zeros 8 ++ (zeros 4 ++ (zeros 4 ++ (zeros 4 ++ env.sysXml))))))) =
-        (zeros 4 ++ zeros 4 ++ zeros 4) ++ (padTo 64 INTERFACE_ID ++
+        (zeros 4 ++ zeros 4 ++ zeros 4) ++ (padTo 64 env.ifc.id ++
         (zeros 8 ++ (zeros 4 ++ (zeros 4 ++ (zeros 4 ++ env.sysXml))))) := by
       simp [List.append_assoc]
     rw [e2]
@@ -631,7 +698,8 @@ theorem wf_init (env : Env) (hp : env.path.length ≤ 1024) : WF env (State.init
     rw [e3, List.drop_append, List.drop_eq_nil_of_le (by simp [hz]), List.nil_append]
     simp only [Nat.add_sub_cancel_left, List.drop_zero]
     rw [List.take_append_of_le_length (by rw [hid]; exact Nat.le_refl _)]
-    decide
+    rw [List.take_of_length_le (by rw [hid]; exact Nat.le_refl _)]
+    rfl
 
 /-- … and is preserved by every call, hence holds after every call sequence. -/
 theorem wf_step {env : Env} {s s' : State} {c : Call} {r : Result}
@@ -685,7 +753,7 @@ theorem gcWritePort_never_aborts (env : Env) (s : State) (h address size : Nat) 
 
 /-- non-vacuity of the write theorem: a 4-byte write of zero to the InterfaceSelector register
 (address 1028) of a well-formed initial state is stored and returns Ok. -/
-example : (sysMap ⟨[], [], []⟩).rightOfRange 1028 1032 = .rw := by decide
+example : (sysMap exEnv).rightOfRange 1028 1032 = .rw := by decide
 
 /-! ## 7. No call, and no call sequence, aborts the process -/
 
@@ -800,6 +868,31 @@ private theorem writeStacked_eq_ne_panic {env : Env} {m : Module} {s s' : State}
   have := writeStacked_ne_panic env m s es n hwf hh
   rw [h] at this; exact this
 
+private theorem honest_write {h a size : Nat} {d : Bytes}
+    (hh : (Call.gcWritePort h a size d).honest = true) (hn : ¬ size > ISIZE_MAX) : d.length = size := by
+  simp only [Call.honest, Bool.or_eq_true, decide_eq_true_eq] at hh
+  rcases hh with h1 | h1
+  · exact h1
+  · exact absurd h1 hn
+
+private theorem honest_reads {h : Nat} {es : List (Nat × Nat × Bytes)}
+    (hh : (Call.gcReadPortStacked h es).honest = true)
+    (hn : ¬ (es.any fun e => decide (e.2.1 > ISIZE_MAX)) = true) :
+    es.all (fun e => decide (e.2.1 ≤ e.2.2.length)) = true := by
+  simp only [Call.honest, Bool.or_eq_true] at hh
+  rcases hh with h1 | h1
+  · exact absurd h1 hn
+  · exact h1
+
+private theorem honest_writes {h : Nat} {es : List (Nat × Nat × Bytes)}
+    (hh : (Call.gcWritePortStacked h es).honest = true)
+    (hn : ¬ (es.any fun e => decide (e.2.1 > ISIZE_MAX)) = true) :
+    es.all (fun e => decide (e.2.2.length = e.2.1)) = true := by
+  simp only [Call.honest, Bool.or_eq_true] at hh
+  rcases hh with h1 | h1
+  · exact absurd h1 hn
+  · exact h1
+
 /-- No call body panics in a well-formed state (honest buffer sizes). -/
 private theorem body_ne_panic (env : Env) (s : State) (c : Call) (hwf : WF env s) (hp : fileName env.path ≠ none)
     (hh : c.honest = true) : (body env s c).res ≠ .panic := by
@@ -808,9 +901,9 @@ private theorem body_ne_panic (env : Env) (s : State) (c : Call) (hwf : WF env s
   all_goals first
     | exact infoOut_ne_panic _ _
     | exact copyOut_ne_panic _ _
-    | exact portWriteSized_eq_ne_panic hwf (by simpa [Call.honest] using hh) (by assumption) rfl
-    | exact readStacked_eq_ne_panic (by simpa [Call.honest] using hh) (by assumption) rfl
-    | exact writeStacked_eq_ne_panic hwf (by simpa [Call.honest] using hh) (by assumption) rfl
+    | exact portWriteSized_eq_ne_panic hwf (honest_write hh (by assumption)) (by assumption) rfl
+    | exact readStacked_eq_ne_panic (honest_reads hh (by assumption)) (by assumption) rfl
+    | exact writeStacked_eq_ne_panic hwf (honest_writes hh (by assumption)) (by assumption) rfl
     | simp_all [Call.honest, wantSystem_ne_panic, wantInterface_ne_panic, portOf_ne_panic, portMeta_ne_panic,
         copyTo_ne_panic, queryValue_ne_panic, portRead_ne_panic]
 
@@ -852,15 +945,19 @@ undefined behaviour in C, the model does not make it: `Out.skipped`), indexes, c
 buffers, NULL pointers, addresses, sizes (honest: the caller owns the bytes it names), data —
 crashes the process. -/
 theorem no_call_sequence_crashes (env : Env) (hlen : env.path.length ≤ 1024)
+    (hid : env.ifc.id.length ≤ 64)
     (hname : fileName env.path ≠ none) (cs : List Call) (hh : ∀ c ∈ cs, c.honest = true) :
     ∃ rs s', run env (State.init env) cs = (rs, some s') ∧ rs.length = cs.length :=
-  run_never_aborts env hname cs hh _ (wf_init env hlen)
+  run_never_aborts env hname cs hh _ (wf_init env hlen hid)
 
-/-- the honesty hypothesis is satisfiable by port calls with sizes beyond `isize::MAX` and by
-NULL-pointer calls -/
-example : (Call.gcReadPort 0 0 (2 ^ 64 - 1) (List.replicate 0 0)).honest = false ∧
-    (Call.nullPtr (.gcReadPort 0 0 (2 ^ 64 - 1) [])).honest = true ∧
-    (Call.gcWritePort 0 1028 4 [0, 0, 0, 0]).honest = true := by decide
+/-- `honest` covers port calls with impossible sizes (no buffer needed: they are refused up
+front), NULL-pointer calls and ordinary calls with the buffer they name; it excludes a possible
+size with a shorter buffer. -/
+example : (Call.gcReadPort 0 0 (2 ^ 64 - 1) []).honest = true ∧
+    (Call.gcWritePortStacked 0 [(1028, 4, [0, 0, 0, 0]), (0, 2 ^ 63, [])]).honest = true ∧
+    (Call.nullPtr (.gcReadPort 0 0 8 [])).honest = true ∧
+    (Call.gcWritePort 0 1028 4 [0, 0, 0, 0]).honest = true ∧
+    (Call.gcReadPort 0 0 8 [0]).honest = false := by decide
 
 /-! ## 8. The register tables are the `#[register_map]` layout -/
 
